@@ -241,15 +241,30 @@ class InterpBase:
             self.hostops[key] = f
         return f
 
-    def host_op(self, op, v, node, base="BaseException", extra=None):
+    def host_op(self, op, v, node, base=None, extra=None):
         """An operation that runs host code on v: may raise (deterministically per value) or return
         an unconstrained value Host_res_op(v)."""
+        if base is None:
+            base = getattr(self.top, "host_ops_exc_base", "BaseException") if self.top is not None else "BaseException"
         raises = self.hostfn(op, "raises")(v)
         origin = self.anchor(node, extra) if node is not None else "host:" + op
         self.st.ghost.setdefault("host_ops", []).append((op, origin))
         if self.ctx.branch(raises, "host:%s raises" % op):
             self.raise_symbolic(origin, base, label="host:%s" % op)
-        return self.hostfn(op, "res")(v)
+        res = self.hostfn(op, "res")(v)
+        # what host code hands back is a host-owned value (never one of the agent's own objects)
+        self.ctx.assume(z3.Implies(Val.is_VRef(res), z3.And(Val.r(res) > 0, Val.r(res) < self.st.next_id,
+                        self.host_or_builtin_class(z3.Select(self.st.typeof, Val.r(res))))))
+        return res
+
+    def is_type_object(self, v):
+        """v is a class object (result of type(x) / x.__class__ or a class literal)."""
+        r = z3.simplify(Val.r(v))
+        if z3.is_int_value(r):
+            return r.as_long() >= TYPEBASE
+        if any(r.eq(x) for x in self.st.ghost.get("type_terms", ())):
+            return True
+        return False
 
     # ------------------------------------------------------------------ names
     @property
@@ -267,10 +282,10 @@ class InterpBase:
         v = self.lookup_global(mod, name)
         if v is not None:
             return v
+        if name in BUILTIN_EXC or name in BUILTIN_TYPES:
+            return self.class_term(self.table.id(name))
         if name in BUILTIN_NAMES:
             return self.st_register_cached(("builtin", name), lambda: BuiltinFn(name))
-        if name in BUILTIN_EXC or name in ("dict", "list", "tuple", "set", "frozenset", "object"):
-            return self.class_term(self.table.id(name))
         if name in ("True", "False", "None"):
             return {"True": VTrue, "False": VFalse, "None": VNone}[name]
         raise Unsupported("unresolved name %s in %s" % (name, fr.fi.key if fr.fi else "?"))
@@ -408,6 +423,7 @@ class InterpBase:
         """Term for str(v) for a value whose str() cannot run host code (primitives)."""
         v = z3.simplify(v)
         if z3.is_app(v) and v.decl().name() == "VStr":
+            self.ctx.assume(StrOf(v) == v.arg(0))
             return v.arg(0)
         s = StrOf(v)
         self.ctx.assume(z3.Implies(Val.is_VStr(v), s == Val.s(v)))
@@ -425,6 +441,8 @@ class InterpBase:
         v = z3.simplify(v)
         if not self.ctx.branch(Val.is_VRef(v), "str-arg-is-object"):
             return self.str_of(v)
+        if self.is_type_object(v):
+            return StrOf(v)          # "<class 'x'>": class objects render without running instance code
         ccid = z3.simplify(z3.Select(self.st.typeof, Val.r(v)))
         if z3.is_int_value(ccid):
             cid = ccid.as_long()
